@@ -92,6 +92,7 @@ func checkC04(c *Ctx) {
 			if fo := c.failover(sib); fo.Err == nil {
 				c.c05Sibling(fo)
 			}
+			c.c05Constructor(sib) // the failure cache's TimeToLive is FailedUpdateTTL (not another duration of the configuration)
 		}
 	}, func(o *coreObl) (string, bool) {
 		return "R04.6", o.Rule == "R05.5" || o.Rule == "R05.6" || o.Rule == "R05.3" && (o.Status == "discharged" || o.What == "cached-error-not-from-builder")
@@ -126,6 +127,9 @@ func checkC04(c *Ctx) {
 	// the background build writes to and unlocks whatever the buffer holds by then (C09 R09.1)
 	c.borrowKinds("C09", func() { c.c09Retention() }, "R04.4", "Failover.Get:key-copied-before-go", []string{"R09.1"}, "read-in-goroutine")
 	c.c04CtorWiring("R04.9", false)
+	// R04.3 relies on the keyLocks mutex being one mutex: a copy of the Failover struct (value receiver, dereference) carries a
+	// copy of it, which excludes nobody — or starts out locked and blocks for ever (C16 R16.10, copylock pass)
+	c.borrow("C16", func() { c.c16CopyLocks() }, func(o *coreObl) (string, bool) { return "R04.3", o.Rule == "R16.10" })
 	// "a later Get is able to build again": an expired entry leads to a rebuild only if Get recognises the backend's expiry error
 	// — by errors.As/errors.Is, so that a backend which wraps its read errors is understood too (C03 R03.1); an unrecognised
 	// read error is returned as it is, on every later Get as well
